@@ -176,7 +176,7 @@ Definition iaggregate_path (early : bool) (i : N) (t : itree) : itree :=
 (* the user overwrites upper(node i) := hi' (lower unchanged, so the order is kept) *)
 Definition iset_hi (i hi' : N) (t : itree) : itree :=
   match locate iid i t [] with
-  | Some (T _ _ x _ _, _) => set_elt iid i (mkI (ilo x) hi' i) t
+  | Some (T _ _ x _ _, _) => set_elt iid i (mkI (ilo x) hi' (iid x)) t
   | _ => t
   end.
 Definition iremk (t : itree) : itree := remk iagg t.
